@@ -10,6 +10,12 @@ let install register get getn geti getb =
     let m = getn kv "m" in
     Printf.sprintf "from=%s tofrom=%s chmod=%s lsmode=%s" (hex_of_n (fromFileMode m)) (hex_of_n (toFileMode (fromFileMode m)))
       (hex_of_n (toChmodPerm m)) (hex_of_bytes (mode_string (fromFileMode m))));
+  register "statinfo" (fun kv ->
+    let hs = getb kv "statt" and hi = getb kv "iface" and he = getb kv "extiface" in
+    let sid = (getn kv "suid", getn kv "sgid") and iid = (getn kv "iuid", getn kv "igid") in
+    let (u, g) = fileStat_owner hs hi sid iid and (lu, lg) = ls_owner hs hi sid iid in
+    Printf.sprintf "flags=%s uid=%s gid=%s lsuid=%s lsgid=%s" (hex_of_n (fileStat_flags hs hi (nat_of_int (geti kv "next")) he))
+      (hex_of_n u) (hex_of_n g) (hex_of_n lu) (hex_of_n lg));
   register "setstat" (fun kv ->
     let flags = getn kv "flags" in
     let fs = { st_size = getn kv "size"; st_mode = getn kv "mode"; st_mtime = getn kv "mtime"; st_atime = getn kv "atime";
